@@ -20,7 +20,8 @@ def rotation_heavy(rng, n, comps):
                 if rng.random() < 0.3:
                     ops.append({"op": "rot", "export": rng.random() < 0.5})
         # keep the documented precondition: drop switches to sets that are not in the header yet
-        h["ops"] = [o for o in ops if not (o["op"] == "setbp" and o["i"] < 200 and o["i"] >= len(h["preamble"]["bps"]))]
+        h["ops"] = [o for o in ops if o["op"] != "editbp"
+                    and not (o["op"] == "setbp" and o["i"] < 200 and o["i"] >= len(h["preamble"]["bps"]))]
         hs.append(h)
     return hs
 
